@@ -73,6 +73,10 @@ AlphabetSet ==
             s \in Addrs, d \in {"dupAddr", "badAddrLen"}} \cup
         {Op("tx", [BaseTx("commit", s) EXCEPT !.eon = BadEon, !.gm = 1, !.bad = "badPoint"], "fresh") : s \in Addrs}
      ELSE {}) \cup
+    (IF "dupacc" \in Kinds THEN
+        {Op("tx", [BaseTx("acc", s) EXCEPT !.eon = BadEon, !.to = <<r, BadPeer(r)>>], "fresh") : s \in Addrs, r \in Addrs} \cup
+        {Op("tx", [BaseTx("acc", s) EXCEPT !.eon = BadEon, !.to = TwoOthers(s), !.bad = "dupAddr"], "fresh") : s \in Addrs}
+     ELSE {}) \cup
     (IF "forged" \in Kinds THEN
         {Op("tx", [BaseTx("forged", s) EXCEPT !.cfg = Cands[i]], "forged") : s \in Addrs, i \in DOMAIN Cands}
      ELSE {}) \cup
